@@ -156,6 +156,55 @@ def nearIsoVertex (shapes : List Shape) (cpu cutoff : Float) (v : V3 Float) : Bo
        let fa := sample pa; let fb := sample pb
        (fa < cutoff) != (fb < cutoff)))
 
+/-- the inside→outside direction (±e_k) of the sign-changing lattice edge the vertex lies on; `none` when the vertex
+    lies on no such edge, on several (a vertex at a lattice corner: sample equal to the cutoff), or within the weld
+    radius of a lattice corner -/
+def vertexOutDir (shapes : List Shape) (cpu cutoff : Float) (v : V3 Float) : Option (V3 Float) :=
+  let tol : Float := 1e-6
+  let u : Array Float := #[v.x * cpu, v.y * cpu, v.z * cpu]
+  let r : Array Float := u.map Float.round
+  let sample (p : Array Float) : Float := fieldAt shapes ⟨p[0]! / cpu, p[1]! / cpu, p[2]! / cpu⟩
+  let cands : List (V3 Float) := (List.range 3).flatMap fun k =>
+    let j1 := (k + 1) % 3; let j2 := (k + 2) % 3
+    if (u[j1]! - r[j1]!).abs ≤ tol && (u[j2]! - r[j2]!).abs ≤ tol then
+      [-1.0, 0.0, 1.0].filterMap fun d =>
+        let lo := (u[k]!).floor + d
+        if lo - tol ≤ u[k]! && u[k]! ≤ lo + 1 + tol then
+          let fa := sample (r.set! k lo); let fb := sample (r.set! k (lo + 1))
+          if (fa < cutoff) != (fb < cutoff) then
+            let sgn : Float := if fa < cutoff then 1.0 else -1.0
+            some (if k == 0 then ⟨sgn, 0, 0⟩ else if k == 1 then ⟨0, sgn, 0⟩ else ⟨0, 0, sgn⟩)
+          else none
+        else none
+    else []
+  -- a vertex within the weld radius (1e-3 world units per coordinate) of a lattice corner may stand in, after the
+  -- weld, for a vertex of ANOTHER lattice edge through that corner: its edge is not determined by its position
+  let delta : Float := 1.1e-3 * cpu
+  let nearCorner := (u[0]! - r[0]!).abs ≤ delta && (u[1]! - r[1]!).abs ≤ delta && (u[2]! - r[2]!).abs ≤ delta
+  match cands with
+  | [d] => if nearCorner then none else some d
+  | _ => none
+
+/-- `TriOutward` — the predicate of `C09.emitted_triangle_outward` on the real mesh: for every triangle all of whose
+    corners lie on exactly one sign-changing lattice edge, `normal · (d₀ + d₁ + d₂) ≥ −ε` (ε = 1e-6 cell², for slivers),
+    and at least one such triangle (if there is any) is strictly positive -/
+def triOutward (shapes : List Shape) (cpu cutoff : Float) (tris : Array (Nat × Nat × Nat)) (pos : Array Float) : Bool :=
+  let nv := pos.size / 3
+  let dirs : Array (Option (V3 Float)) := (Array.range nv).map fun i =>
+    vertexOutDir shapes cpu cutoff ⟨pos[3*i]!, pos[3*i+1]!, pos[3*i+2]!⟩
+  let eps : Float := 1e-6 / (cpu * cpu)
+  let vals : Array (Option Float) := tris.map fun t =>
+    match dirs[t.1]!, dirs[t.2.1]!, dirs[t.2.2]! with
+    | some d0, some d1, some d2 =>
+      let p (i : Nat) : V3 Float := ⟨pos[3*i]!, pos[3*i+1]!, pos[3*i+2]!⟩
+      let a := p t.1; let b := p t.2.1; let c := p t.2.2
+      let e1 : V3 Float := ⟨b.x - a.x, b.y - a.y, b.z - a.z⟩; let e2 : V3 Float := ⟨c.x - a.x, c.y - a.y, c.z - a.z⟩
+      let n : V3 Float := ⟨e1.y * e2.z - e1.z * e2.y, e1.z * e2.x - e1.x * e2.z, e1.x * e2.y - e1.y * e2.x⟩
+      some (n.x * (d0.x + d1.x + d2.x) + n.y * (d0.y + d1.y + d2.y) + n.z * (d0.z + d1.z + d2.z))
+    | _, _, _ => none
+  vals.all (fun v => match v with | some x => x ≥ -eps | none => true) &&
+  (vals.all (fun v => v.isNone) || vals.any (fun v => match v with | some x => x > eps | none => false))
+
 /-! ### the model's marcher on an integer-tagged sample box -/
 
 structure Box where
@@ -274,6 +323,17 @@ def takeFloats (n : Nat) (ts : List String) : Option (Array Float × List String
     let xs ← (ts.take n).mapM hexF?
     pure (xs.toArray, ts.drop n)
 
+/-- shape tokens: kind as decimal 0/1/2, parameters as hex floats -/
+def shapeToks : Nat → List String → Option (List Float × List String)
+  | 0, r => some ([], r)
+  | n+1, k :: r => do
+    let kind ← nat? k
+    let cnt := if kind == 0 then 5 else if kind == 1 then 7 else 8
+    let (fs, r') ← takeFloats cnt r
+    let (l, r'') ← shapeToks n r'
+    pure (Float.ofNat kind :: fs.toList ++ l, r'')
+  | _, _ => none
+
 def handle (op : String) (args : List String) : Option String := do
   match op with
   | "c09.march.grid" =>
@@ -332,20 +392,27 @@ def handle (op : String) (args : List String) : Option String := do
       if !(tris.all fun t => t.1 < nv && t.2.1 < nv && t.2.2 < nv) then pure "false"
       else pure (boolStr (signedVolume6 tris pos > 0))
     | _ => none
+  | "c09.holds.tri_outward" =>
+    match args with
+    | cpu :: cutoff :: ns :: rest => do
+      let cpu ← hexF? cpu; let cutoff ← hexF? cutoff; let ns ← nat? ns
+      let (sf, rest) ← shapeToks ns rest
+      let (shapes, _) ← parseShapes ns sf
+      match rest with
+      | nv :: nt :: rest => do
+        let nv ← nat? nv; let nt ← nat? nt
+        let (idx, rest) ← takeNats (3 * nt) rest
+        let (pos, rest) ← takeFloats (3 * nv) rest
+        if !rest.isEmpty then none
+        let tris := trisOf idx
+        if !(tris.all fun t => t.1 < nv && t.2.1 < nv && t.2.2 < nv) then pure "false"
+        else pure (boolStr (triOutward shapes cpu cutoff tris pos))
+      | _ => none
+    | _ => none
   | "c09.holds.near_iso" =>
     match args with
     | cpu :: cutoff :: ns :: rest => do
       let cpu ← hexF? cpu; let cutoff ← hexF? cutoff; let ns ← nat? ns
-      -- shape tokens: kind as decimal 0/1/2, parameters as hex floats
-      let rec shapeToks : Nat → List String → Option (List Float × List String)
-        | 0, r => some ([], r)
-        | n+1, k :: r => do
-          let kind ← nat? k
-          let cnt := if kind == 0 then 5 else if kind == 1 then 7 else 8
-          let (fs, r') ← takeFloats cnt r
-          let (l, r'') ← shapeToks n r'
-          pure (Float.ofNat kind :: fs.toList ++ l, r'')
-        | _, _ => none
       let (sf, rest) ← shapeToks ns rest
       let (shapes, _) ← parseShapes ns sf
       match rest with
